@@ -253,9 +253,14 @@ ActiveTok(g, x) == \E i \in 1..Len(g.msk[x.c]) : g.msk[x.c][i].t = x.t /\ g.msk[
 \* secrets of rights disabled since, re-encapsulated under an older public key)
 RecapsSure(g, k, e) == {x \in Recoverable(g, e) : ActiveTok(g, x) /\ x.c \in DOMAIN g.mpks[k].keys}
 RecapsMay(g, k, e) == {x \in Recoverable(g, e) : x.c \in DOMAIN g.mpks[k].keys}
+\* "it fails when none of the original rights can be recovered": nothing to open, or -- since the new
+\* encapsulation targets exactly the rights that can still be opened AND are published -- nothing of
+\* what can be opened is published by that key (an encapsulation for no right at all would carry a
+\* secret nobody can ever open; the documented result is "the same rights as the one given").
 RecapsV(g, k, e) ==
     IF Recoverable(g, e) = {} THEN "err"
     ELSE IF RecapsSure(g, k, e) # {} THEN "ok"
+    ELSE IF RecapsMay(g, k, e) = {} THEN "err"
     ELSE "any"
 Recaps(g, e2, k, e) ==
     LET tgOf(S) == {[c |-> x.c, t |-> g.mpks[k].keys[x.c].t] : x \in S}
